@@ -55,8 +55,11 @@ def run(tier):
     outcomes = {}
 
     def cmp(cid, a, b, ga, gb, label, feats):
-        ck.count()
         m = specs[cid]
+        kc = getattr(m, "kind_classes", None)
+        if kc and kc[a.replace("try_", "")] != kc[b.replace("try_", "")]:
+            return True   # the instructions give these two kinds different designations (kind-split #[parent(..)] entries): not flavours of one mapping
+        ck.count()
         key = (m.family, label, tuple(feats))
         outcomes.setdefault(key, set()).add(ga)
         if ga != gb:
